@@ -511,6 +511,7 @@ int ga_classify_fault(const void *addr, char *out, size_t outlen)
 /* signals                                                                                    */
 
 static unsigned char *stk_lo, *stk_hi;   /* painted stack bounds, for classification */
+static volatile int mon_dying;
 
 static void sig_write(const char *s) { ssize_t r = write(fileno(cjv_log), s, strlen(s)); (void)r; }
 
@@ -525,6 +526,7 @@ static void on_fatal_signal(int sig, siginfo_t *si, void *uc_)
     if (uc) sp = (unsigned long)uc->uc_mcontext.gregs[REG_RSP];
 #endif
     int was_in_lib = cjv_in_lib;
+    if (mon_dying) _exit(3);      /* the sanitizer already reported and is aborting */
     cjv_in_lib = 0;
     fflush(cjv_log);
     cls[0] = 0;
@@ -553,12 +555,13 @@ static void on_fatal_signal(int sig, siginfo_t *si, void *uc_)
 
 void mon_install_handlers(void)
 {
-    static unsigned char altstack[1 << 16];
+    /* mmap'd: under ASan the runtime unmaps the thread's alternate stack at thread exit */
+    unsigned char *altstack = mmap(NULL, 1 << 16, PROT_READ | PROT_WRITE, MAP_PRIVATE | MAP_ANONYMOUS, -1, 0);
     stack_t ss;
     struct sigaction sa;
     int sigs[] = { SIGSEGV, SIGBUS, SIGABRT, SIGFPE, SIGILL, SIGALRM };
     size_t i;
-    ss.ss_sp = altstack; ss.ss_size = sizeof altstack; ss.ss_flags = 0;
+    ss.ss_sp = altstack; ss.ss_size = 1 << 16; ss.ss_flags = 0;
     sigaltstack(&ss, NULL);
     memset(&sa, 0, sizeof sa);
     sa.sa_sigaction = on_fatal_signal;
@@ -581,8 +584,15 @@ void __asan_on_error(void);
 void __asan_on_error(void)
 {
     char line[256];
+    int was = cjv_in_lib;
+    mon_dying = 1;
     cjv_in_lib = 0;
     fflush(cjv_log);
+    if (!was) {
+        snprintf(line, sizeof line, "H %ld %ld harness-crash sanitizer report outside a library call (last_call=%s)\n", cjv_case_id, cjv_op_idx, cjv_cur_call ? cjv_cur_call : "-");
+        sig_write(line);
+        return;
+    }
     snprintf(line, sizeof line, "V %ld %ld sanitizer/asan call=%s see-stderr\nX %ld %ld died\n",
              cjv_case_id, cjv_op_idx, cjv_cur_call ? cjv_cur_call : "-", cjv_case_id, cjv_op_idx);
     sig_write(line);
@@ -701,12 +711,13 @@ int wf_check(const cJSON *root, int flags, const char *what)
 /* ------------------------------------------------------------------------------------------ */
 /* TN dump                                                                                    */
 
-static long tn_steps, tn_cap;
+static long tn_steps, tn_cap, tn_depth;
 
 static int tn_node(bbuf *o, const cJSON *n)
 {
     int t = n->type, lo = t & 0xFF;
     if (++tn_steps > tn_cap) return -1;
+    if (tn_depth > 400000) return -1;
     if (n->string) {
         bb_putc(o, (t & cJSON_StringIsConst) ? 'c' : 'k');
         bb_hex(o, n->string, strlen(n->string));
@@ -738,7 +749,9 @@ static int tn_node(bbuf *o, const cJSON *n)
         for (c = n->child; c; c = c->next) { if (++cnt > tn_cap) return -1; }
         bb_printf(o, "%ld;", cnt);
         at = o->n; (void)at;
-        for (c = n->child; c; c = c->next) if (tn_node(o, c) < 0) return -1;
+        tn_depth++;
+        for (c = n->child; c; c = c->next) if (tn_node(o, c) < 0) { tn_depth--; return -1; }
+        tn_depth--;
         break;
     }
     default:
@@ -751,7 +764,8 @@ static int tn_node(bbuf *o, const cJSON *n)
 int tn_dump(bbuf *out, const cJSON *root)
 {
     tn_steps = 0;
-    tn_cap = 20000000L;
+    tn_depth = 0;
+    tn_cap = 4000000L;
     if (root == NULL) { bb_putc(out, '-'); return 0; }
     return tn_node(out, root);
 }
